@@ -191,12 +191,16 @@ def rule_vetting(repo, rep):
   for n in ast.walk(f.node):
     if isinstance(n, ast.Assign) and isinstance(n.targets[0], ast.Name):
       defs.setdefault(n.targets[0].id, []).append(n.value)
+  # the solver result: the argument of the conversion that is stored
   Mname = None
-  if isinstance(st.value, ast.Call):
-    for a in ast.walk(st.value):
-      if isinstance(a, ast.Name) and a.id in defs or \
-              (isinstance(a, ast.Name) and a.id == 'M'):
-        Mname = a.id
+  if isinstance(st.value, ast.Call) and st.value.args:
+    a0 = st.value.args[0]
+    while isinstance(a0, ast.Call) and a0.args and canon(
+            repo.dotted(f.module, a0.func) or '') in (
+                canon('numpy.atleast_2d'), canon('numpy.asarray')):
+      a0 = a0.args[0]
+    if isinstance(a0, ast.Name):
+      Mname = a0.id
   def dn(e):
     d = repo.dotted(f.module, e)
     return canon(d) if d else None
@@ -336,7 +340,45 @@ def rule_forms(repo, rep):
            'the solver input is prior_inv + balance_param * loss_matrix '
            '(plus sign, linear in the loss matrix)')
   from ..ratfunc import Rat, LinM, eval_expr
-  f = repo.get_func('sdml._BaseSDML._fit')
+  f0 = repo.get_func('sdml._BaseSDML._fit')
+  # roles: emp_cov = the matrix handed to the solver; prior_inv = second
+  # element of the (M, M^-1) pair; loss_matrix = the other matrix in the
+  # solver input; diff = the matrix the loss matrix is built from
+  roles = {}
+  for n in ast.walk(f0.node):
+    if isinstance(n, ast.Call) and \
+            canon(repo.dotted(f0.module, n.func) or '') in GLASSO and \
+            n.args and isinstance(n.args[0], ast.Name):
+      roles[n.args[0].id] = 'emp_cov'
+    if isinstance(n, ast.Assign) and isinstance(n.targets[0], ast.Tuple) and \
+            isinstance(n.value, ast.Call) and \
+            (repo.dotted(f0.module, n.value.func) or '').endswith(
+                '_initialize_metric_mahalanobis') and \
+            len(n.targets[0].elts) == 2 and \
+            isinstance(n.targets[0].elts[1], ast.Name):
+      roles[n.targets[0].elts[1].id] = 'prior_inv'
+  ecn = next((k for k, v in roles.items() if v == 'emp_cov'), None)
+  pin = next((k for k, v in roles.items() if v == 'prior_inv'), None)
+  ecd = [v for (n, v) in guards.assignments(f0.node, ecn or '?')
+         if v is not None]
+  if ecd:
+    oth = set(x.id for x in ast.walk(ecd[0]) if isinstance(x, ast.Name)) - \
+        {pin, 'self', 'np'}
+    if len(oth) == 1:
+      roles[oth.pop()] = 'loss_matrix'
+  lmn = next((k for k, v in roles.items() if v == 'loss_matrix'), None)
+  lmd = [v for (n, v) in guards.assignments(f0.node, lmn or '?')
+         if v is not None]
+  if lmd:
+    oth = set(x.id for x in ast.walk(lmd[0]) if isinstance(x, ast.Name)) - \
+        {'y', 'np', 'self', 'pairs'}
+    if len(oth) == 1:
+      roles[oth.pop()] = 'diff'
+  f = astutil.role_view(f0, roles)
+  if f is None:
+    rep.unknown(R, 'sdml._BaseSDML._fit', site(f0), 'roles %s cannot be given '
+                'canonical names' % roles)
+    return
   lm = [v for (n, v) in guards.assignments(f.node, 'loss_matrix')
         if v is not None]
   okl = lm and ast.unparse(lm[0]) in (
